@@ -18,6 +18,12 @@ theorem ravel2_inj (n : ℕ) (hn : 0 < n) (a i a' i' : ℕ) (hi : i < n) (hi' : 
 theorem ravel2_surj (n : ℕ) (hn : 0 < n) (k : ℕ) : ∃ a i, i < n ∧ k = a * n + i :=
   ⟨k / n, k % n, Nat.mod_lt k hn, by rw [Nat.mul_comm]; exact (Nat.div_add_mod k n).symm⟩
 
+/-- a row-major value is below the product of the extents (contracts/mirjalili_events.py: the row of the product holding a digit vector exists) -/
+theorem ravel2_lt (a i n m : ℕ) (ha : a < m) (hi : i < n) : a * n + i < m * n := by
+  have h1 : (a + 1) * n ≤ m * n := Nat.mul_le_mul_right n ha
+  have h2 : a * n + i < (a + 1) * n := by rw [Nat.add_mul, Nat.one_mul]; omega
+  omega
+
 /-- three-level layout (devices × batches × batch_size): injective … -/
 theorem ravel3_inj (B bs : ℕ) (hB : 0 < B) (hbs : 0 < bs) (d b j d' b' j' : ℕ)
     (hb : b < B) (hj : j < bs) (hb' : b' < B) (hj' : j' < bs)
